@@ -23,8 +23,8 @@ ASSUMPTIONS = [
     "queries with a non-finite distance are skipped and counted",
 ]
 BUDGET = {
-    "quick": {"cases": 2400, "seconds": 60, "shards": 8},
-    "thorough": {"cases": 40000, "seconds": 540, "shards": 16},
+    "quick": {"cases": 7200, "seconds": 90, "shards": 8},
+    "thorough": {"cases": 120000, "seconds": 900, "shards": 16},
 }
 REQUIRED_OBS = ["queries_judged:knn", "queries_judged:unsup", "tie_at_kth", "query_is_training_copy", "density_between_costs", "k>=2_queries",
                 "multiple_admissible", "pre_computed_cases", "asymmetric_metric_cases"]
